@@ -35,6 +35,9 @@ def main():
             continue
         meta = json.load(open(os.path.join(d, 'meta.json')))
         prop = meta.get('expected_check') or meta['property']
+        if meta.get('out_of_scope'):
+            print('%-6s (%s) outside the property\'s quantifier: %s' % (sid, prop, meta['out_of_scope'][:120]))
+            continue
         tmp = tempfile.mkdtemp(prefix='verif-seeded-%s-' % sid, dir='/tmp')
         try:
             shutil.copytree(os.path.join(REPO, 'lib'), os.path.join(tmp, 'lib'),
